@@ -13,7 +13,7 @@ RULE = ("cases = (a) every tensor constructor and transform result (empty, fromF
 
 CTORS = ["empty", "fromFiber", "fromUncompressed", "fromRandom", "fromYAMLfile", "makePopulated", "deepcopy",
          "splitUniform", "splitEqual", "splitNonUniform", "splitUnEqual", "swizzle", "swap", "flatten", "unflatten",
-         "merge", "updateCoords", "updatePayloads"]
+         "merge", "updateCoords", "updatePayloads", "fromFiberOfRoot", "setRoot"]
 
 
 def gen(seed, tier):
@@ -25,7 +25,10 @@ def gen(seed, tier):
             dflt = rng.choice([0, 0, 7])
             n = rng.choice([2, 3, 4])
             yield {"prop": PROP, "op": "ctor", "ctor": ctor, "d": d, "dflt": dflt, "n": n,
-                   "t": H.gen_tree(rng, d, n, HI.POOL, dflt), "cseed": rng.randrange(1 << 30)}
+                   "t": H.gen_tree(rng, d, n, HI.POOL, dflt), "cseed": rng.randrange(1 << 30),
+                   # which tensor is observed: the result, or the tensor the result was made from (it must
+                   # still mirror its own tree after having served as an operand)
+                   "observe": rng.choice(["result", "result", "source"])}
     n_hist = 2500 if tier == "quick" else 40000
     for i in range(n_hist):
         d = rng.choice([2, 2, 3])
@@ -47,6 +50,15 @@ def _nest(tree, depth, n, dflt):
 
 def _build(case):
     """returns the tensor under test (its depth may differ from the operand's)"""
+    made = _build2(case)
+    if isinstance(made, tuple):
+        res, src = made
+        return src if (case.get("observe") == "source" and src is not None) else res
+    return made
+
+
+def _build2(case):
+    """the constructed tensor, or (result, source tensor) for constructors that take a tensor"""
     ft = H.ft()
     d, dflt, n = case["d"], case["dflt"], case["n"]
     ids = [chr(ord("A") + k) for k in range(d)]
@@ -73,8 +85,20 @@ def _build(case):
     if c == "makePopulated":
         return ft.Tensor.makePopulated(rank_ids=ids, shape=[rng.choice([1, 2, 3]) for _ in range(d)], initial=1, default=dflt)
     if c == "deepcopy":
-        return copy.deepcopy(base())
+        t = base()
+        return copy.deepcopy(t), t
     t = base()
+    if c == "fromFiberOfRoot":
+        return ft.Tensor.fromFiber(rank_ids=ids, fiber=t.getRoot(), default=dflt), t
+    if c == "setRoot":
+        v = ft.Tensor(rank_ids=ids, default=dflt)
+        v.setRoot(t.getRoot())
+        return v, t
+    return _transform(case, t, c, rng, ids, d), t
+
+
+def _transform(case, t, c, rng, ids, d):
+    ft = H.ft()
     depth = rng.randrange(0, d)
     if c == "splitUniform":
         return t.splitUniform(rng.choice([1, 2, 3]), depth=depth)
